@@ -25,7 +25,7 @@ func init() {
 	register(&Property{
 		Meta: report.Meta{
 			Property:    "C09",
-			Explanation: "Closed inventories of everything that can panic, loop, recurse or allocate in the code reachable from the exported API (minus the documented Must* conveniences), each entry either discharged by a guard that is re-checked on the enumerated CFG paths or matched against an audited table with its reason: (P1) explicit panic sites (recovered by qp / a deferred recover, reachable only through Must*, or audited); (P2) go-ipld-prime must.* accessors (total under a dominating Kind fact; must.Int is not and is forbidden); (P3) nil-returning APIs (UnmarshalCompressed, ListIterator/MapIterator, bindnode.Unwrap) used only under a nil / kind fact; (P4) discarded errors whose value is used, under the idiom that makes the call total; (P5) bounds checks the Go compiler's prove pass could not eliminate (go build -gcflags=-d=ssa/check_bce), counted per function against the audited count; (P6) single-result type assertions; (T1) every loop is a recognised bounded idiom (counted, range, iterator Done/Next, stream section loop) or audited (glob.Match); (T2) every recursive call descends into a strict sub-term of its parameter; (M1) every allocation whose size is not a constant is sized by a length of materialised data or bounded by a constant comparison; (M2) no recursive call passes a string / slice that grows from its own parameter (quadratic memory). A new panic, unproven index, unrecognised loop, unbounded allocation in decoder-reachable code is reported even if a human can argue it is unreachable: the report is the obligation to justify it. (P7) push iterators (func(yield func(..) bool)): from the false side of every tested yield answer, and from every yield whose answer is dropped, no call of yield is reachable in the CFG. (P3) a method is called on an interface variable that the function itself sets to nil only under a non-nil fact; a function taken out of a map is called only under the comma-ok or a non-nil fact. (P1) an error stored by a deferred recover goes into a named result. (P3) each return of matchStatement whose first result is the constant matchResultFalse / matchResultNoData has a second result that is neither nil nor a loop-carried variable whose entry value is nil. (M2) in a function that calls itself no Store into a field, element or package-level variable takes a string concatenation or append that has the self-call result among its operands. (P3) on every success path of Reader.GetToken / GetDelegation / GetInvocation the first result is not nil; a comma-ok value needs its ok fact, a loop-filled variable its non-nil fact. (P5) a Slice of a string with a constant low bound k and high bound len(Y)-m (k+m>0) in selector.Parse needs, on its path, !(len(Y) < c) with c >= k+m or HasPrefix / HasSuffix facts with two different one-character constants. (P3) for every field of tokenPayloadModel that the .ipldsch marks optional or nullable and whose Go type is a pointer to a struct type of the module, every success path of tokenFromModel carries a nil test of arg0.<Field>. (P5) the count argument of every static call of strings.Repeat / bytes.Repeat in library functions is a constant >= 0, len / cap, a unicode/utf8 rune count, max with a constant >= 0 among its arguments, or is compared with a constant by a dominating branch that excludes negative values; the canary package lint/testdata/canary/repeat must yield exactly its seeded site. (P5) the guarded-trim condition of selector.Parse is applied to every library function that has a Slice of a string whose high bound is a subtraction of a constant.",
+			Explanation: "Closed inventories of everything that can panic, loop, recurse or allocate in the code reachable from the exported API (minus the documented Must* conveniences), each entry either discharged by a guard that is re-checked on the enumerated CFG paths or matched against an audited table with its reason: (P1) explicit panic sites (recovered by qp / a deferred recover, reachable only through Must*, or audited); (P2) go-ipld-prime must.* accessors (total under a dominating Kind fact; must.Int is not and is forbidden); (P3) nil-returning APIs (UnmarshalCompressed, ListIterator/MapIterator, bindnode.Unwrap) used only under a nil / kind fact; (P4) discarded errors whose value is used, under the idiom that makes the call total; (P5) bounds checks the Go compiler's prove pass could not eliminate (go build -gcflags=-d=ssa/check_bce), counted per function against the audited count; (P6) single-result type assertions; (T1) every loop is a recognised bounded idiom (counted, range, iterator Done/Next, stream section loop) or audited (glob.Match); (T2) every recursive call descends into a strict sub-term of its parameter; (M1) every allocation whose size is not a constant is sized by a length of materialised data or bounded by a constant comparison; (M2) no recursive call passes a string / slice that grows from its own parameter (quadratic memory). A new panic, unproven index, unrecognised loop, unbounded allocation in decoder-reachable code is reported even if a human can argue it is unreachable: the report is the obligation to justify it. (P7) push iterators (func(yield func(..) bool)): from the false side of every tested yield answer, and from every yield whose answer is dropped, no call of yield is reachable in the CFG. (P3) a method is called on an interface variable that the function itself sets to nil only under a non-nil fact; a function taken out of a map is called only under the comma-ok or a non-nil fact. (P1) an error stored by a deferred recover goes into a named result. (P3) each return of matchStatement whose first result is the constant matchResultFalse / matchResultNoData has a second result that is neither nil nor a loop-carried variable whose entry value is nil. (M2) in a function that calls itself no Store into a field, element or package-level variable takes a string concatenation or append that has the self-call result among its operands. (P3) on every success path of Reader.GetToken / GetDelegation / GetInvocation the first result is not nil; a comma-ok value needs its ok fact, a loop-filled variable its non-nil fact. (P5) a Slice of a string with a constant low bound k and high bound len(Y)-m (k+m>0) in selector.Parse needs, on its path, !(len(Y) < c) with c >= k+m or HasPrefix / HasSuffix facts with two different one-character constants. (P3) for every field of tokenPayloadModel that the .ipldsch marks optional or nullable and whose Go type is a pointer to a struct type of the module, every success path of tokenFromModel carries a nil test of arg0.<Field>. (P5) the count argument of every static call of strings.Repeat / bytes.Repeat in library functions is a constant >= 0, len / cap, a unicode/utf8 rune count, max with a constant >= 0 among its arguments, or is compared with a constant by a dominating branch that excludes negative values; the canary package lint/testdata/canary/repeat must yield exactly its seeded site. (P5) the guarded-trim condition of selector.Parse is applied to every library function that has a Slice of a string whose high bound is a subtraction of a constant. (T2) no library function has two invoke instructions of the same parameterless method on the same SSA value when a method of the module with that name can reach the function again.",
 			Assumptions: []string{"go-ipld-prime, refmt, libp2p, x509, base58 decoders are total and bounded (trusted base)", "qp.BuildMap/BuildList recover panics raised inside their closures", "the Go compiler's prove pass is sound"},
 			Trusted:     []string{"go-ipld-prime", "refmt", "go-libp2p/core/crypto", "crypto/x509", "cmd/compile prove pass", "golang.org/x/tools/go/ssa v0.29.0"},
 			NotDecided:  []string{"termination of glob.Match's backtracking loop (audited)", "Go stack exhaustion on deeply nested input", "third-party decoder behaviour", "memory of []rune(str)"},
@@ -156,6 +156,7 @@ func runC09(x *Ctx) {
 	gettersNeverNilNil(x)
 	optionalModelPointers(x)
 	noNegativeRepeats(x)
+	noRepeatedRendering(x)
 	guardedTrims(x)
 	loopsRule(x, fns)
 	recursionRules(x, fns, R)
